@@ -2,9 +2,11 @@ package eng
 
 import (
 	"fmt"
+	"github.com/Oudwins/zog/i18n/en"
 	"github.com/Oudwins/zog/zhttp"
 	"net/http"
 	"reflect"
+	"regexp"
 	"runtime"
 	"runtime/debug"
 	"sort"
@@ -15,6 +17,8 @@ import (
 )
 
 // ---- C07: each execution is isolated from every other ---------------------------------------------
+
+var addrRE = regexp.MustCompile(`0x[0-9a-f]{6,}`)
 
 // fullCanon renders everything one execution exposed: every field of every issue, the destination,
 // and what ctx.Get returned inside every callback.
@@ -31,7 +35,8 @@ func fullCanon(o *Observed, n *Node) string {
 		if hasPT(n) && (i.Dtype == "struct" || i.Dtype == "slice") {
 			val = "(a composite that order-dependent PostTransforms may have written)"
 		}
-		return fmt.Sprintf("{code=%s path=%s dtype=%s params=%v msg=%q value=%s err=%v}", i.Code, i.Path, i.Dtype, ks, i.Message, val, i.Err)
+		// (a user template may quote the value, which for most issues is a pointer: addresses are not compared)
+		return fmt.Sprintf("{code=%s path=%s dtype=%s params=%v msg=%q value=%s err=%v}", i.Code, i.Path, i.Dtype, ks, addrRE.ReplaceAllString(i.Message, "<addr>"), val, i.Err)
 	}
 	if o.RawList != nil {
 		for _, i := range o.RawList {
@@ -172,6 +177,39 @@ func NewHistoryCase(g *Gen, id int) (*Case, []string, string) {
 	defer debug.SetGCPercent(old)
 	runtime.LockOSThread() // the pools are per-P: stay on one
 	defer runtime.UnlockOSThread()
+	// the global configuration of the moment: sometimes a user-edited default language map whose
+	// templates quote the offending value (a message then differs from call to call)
+	customMap := g.R.P(15)
+	if customMap {
+		saved := map[string]map[string]string{}
+		for typ, codes := range en.Map {
+			saved[typ] = map[string]string{}
+			for code, tpl := range codes {
+				saved[typ][code] = tpl
+				if !strings.Contains(tpl, "{{") && code != "fallback" { // (the fallback text is used verbatim, without substitution)
+					codes[code] = "'{{value}}': " + tpl
+				}
+			}
+		}
+		// ... and a template of its own for coercion failures (their value is the input itself, not a pointer)
+		added := []string{}
+		for typ, codes := range en.Map {
+			if _, ok := codes["coerce"]; !ok {
+				codes["coerce"] = "'{{value}}': cannot be read as " + typ
+				added = append(added, typ)
+			}
+		}
+		defer func() {
+			for typ, codes := range saved {
+				for code, tpl := range codes {
+					en.Map[typ][code] = tpl
+				}
+			}
+			for _, typ := range added {
+				delete(en.Map[typ], "coerce")
+			}
+		}()
+	}
 	probe := g.execSpec()
 	probeData := ""
 	if !probe.validate && (probe.node.Kind == KStruct || (probe.node.Kind == KPtr && probe.node.Elem.Kind == KStruct)) && g.R.P(20) {
@@ -254,6 +292,34 @@ func NewHistoryCase(g *Gen, id int) (*Case, []string, string) {
 		tags = append(tags, "isolation")
 		notes = append(notes, "history: "+strings.Join(hist, " ; ")+"\non fresh pools:\n"+refCanon+"\nafter the history:\n"+c)
 	}
+	if customMap {
+		// every message quotes the value of its own issue, whatever was formatted before in this process
+		check := func(i *z.ZogIssue) {
+			if !strings.HasPrefix(i.Message, "'") {
+				return
+			}
+			end := strings.Index(i.Message, "': ")
+			if end < 0 {
+				return
+			}
+			got := addrRE.ReplaceAllString(i.Message[1:end], "<addr>")
+			want := addrRE.ReplaceAllString(fmt.Sprintf("%v", i.Value), "<addr>")
+			if got != want && len(notes) < 3 {
+				tags = append(tags, "isolation")
+				notes = append(notes, fmt.Sprintf("the message of the %s issue at %q quotes %q, its own value is %q (user template '{{value}}': ...)", i.Code, i.Path, got, want))
+			}
+		}
+		for _, i := range after.RawList {
+			check(i)
+		}
+		for k, is := range after.RawMap {
+			if k != "$first" {
+				for _, i := range is {
+					check(i)
+				}
+			}
+		}
+	}
 	if a := aliased(&after); a != "" {
 		tags = append(tags, "issue_aliased")
 		notes = append(notes, a+" after history "+strings.Join(hist, " ; "))
@@ -270,6 +336,7 @@ func NewHistoryCase(g *Gen, id int) (*Case, []string, string) {
 	c.Dest0 = CoqDval(probe.dest0, n)
 	c.dest0v = probe.dest0
 	c.DataCoq = probeData
+	c.SkipModel = customMap
 	c.Obs = after
 	c.Repeats = []string{c.Obs.canon(n)}
 	ids := map[int]*Node{}
